@@ -404,7 +404,7 @@ Qed.
 
 Theorem phase2_ea_length : forall alg p g r, phase2 alg p g = Ok r -> length (g_ea r) = length (g_ea g).
 Proof.
-  intros alg p g r H. unfold phase2 in H.
+  intros alg p g r H. unfold phase2, assign_layers in H.
   destruct (Nat.eqb (length (g_N g)) 1).
   - cbn [bind] in H. apply init_layer_slices_ea_length in H. exact H.
   - destruct alg.
